@@ -350,9 +350,9 @@ __CPROVER_assigns(*self, *e, g_pc_n, __CPROVER_object_whole(g_pc_kind), g_h_serv
 __CPROVER_ensures(self->headers_done_)
 __CPROVER_ensures(__CPROVER_old(self->headers_done_) ==> (g_pc_n == 1 && g_pc_kind[0] == (self->chunked_te_ ? PC_chunked : PC_in) && self->chunked_te_ == __CPROVER_old(self->chunked_te_) &&
                   g_h_server + g_h_cl + g_h_ka + g_h_close + g_h_te + g_h_end + g_h_num + g_h_other == 0))
-/* first output: exactly one header block in front; it gets one Server line, exactly one Connection line, and ends with one empty line */
+/* first output: exactly one header block in front; it gets exactly one Connection line and ends with one empty line (other informational lines such as Server are not constrained) */
 __CPROVER_ensures(!__CPROVER_old(self->headers_done_) ==> (g_pc_n == 2 && g_pc_kind[0] == PC_hdr && g_pc_kind[1] == (self->chunked_te_ ? PC_chunked : PC_in) &&
-                  g_h_server == 1 && g_h_ka + g_h_close == 1 && g_h_end == 1 && g_h_ka == (self->keep_alive_ ? 1 : 0) && g_h_te == (self->chunked_te_ ? 1 : 0) && g_h_cl == g_h_num && g_h_cl <= 1 && g_h_other == 0))
+                  g_h_ka + g_h_close == 1 && g_h_end == 1 && g_h_ka == (self->keep_alive_ ? 1 : 0) && g_h_te == (self->chunked_te_ ? 1 : 0) && g_h_cl == g_h_num && g_h_cl <= 1))
 /* framing: Content-Length is added exactly when the length was unknown and the whole body is in this first output, and it is the size of that body;
    chunked coding only for HTTP/1.1 keep-alive with unknown length; a connection that stays open always has a delimited body */
 __CPROVER_ensures(!__CPROVER_old(self->headers_done_) ==> ((g_h_cl == 1) ==> (completed && g_fmt_num == in_n && self->output_content_length_ == (long long)in_n)))
